@@ -9,7 +9,10 @@ I = ('apply', ('re', '\\d'), ('py', 'int'))          # binds an int
 ANY = ('re', '[ab0-9]')
 VALS = {'S': S, 'I': I}
 NAMES = ('x', 'y')
-TMPL = [('T', ('rule', ['p'], ('seq', ('opt', ('re', '[ab]')), ('py', 'p'))))]
+TMPL = [('T', ('rule', ['p'], ('seq', ('opt', ('re', '[ab]')), ('py', 'p')))),
+        ('T2', ('rule', ['p'], ('ref', 'p'))),
+        # decoy rules named like the bound names: a bound name always wins over a rule of the same name
+        ('x', ('rule', None, ('str', 'b'))), ('y', ('rule', None, ('str', 'a')))]
 
 
 def uses(env, dirty):
@@ -19,9 +22,12 @@ def uses(env, dirty):
         yield ('py', n)
         yield ('where', ANY, ('py', 'lambda v: v == %s' % n))
         yield ('call', 'T', [('ref', n)], [])
+        # compound arguments that mention the name (compiled into a function of their own)
+        yield ('call', 'T2', [('where', ANY, ('py', 'lambda v: v == %s' % n))], [])
         if env[n] == 'I':
             yield ('rep', ('str', 'a'), n, n)
             yield ('rep', ('str', 'a'), None, n)
+            yield ('call', 'T2', [('rep', ('str', 'a'), n, n)], [])
     if 'x' in ok and 'y' in ok:
         yield ('py', '(x, y)')
 
@@ -44,7 +50,7 @@ def bodies(env, dirty, binders, nuses, depth):
                     yield ('let', n, v, b), bu + 1, uu, rb | ({n} if n in env else frozenset())
     if nuses >= 2:
         for b1, bu1, uu1, rb1 in bodies(env, dirty, binders, nuses - 1, depth - 1):
-            for b2, bu2, uu2, rb2 in bodies(env, dirty | rb1, binders - bu1, nuses - uu1, depth - 1):
+            for b2, bu2, uu2, rb2 in bodies(env, dirty, binders - bu1, nuses - uu1, depth - 1):
                 yield ('seq', b1, b2), bu1 + bu2, uu1 + uu2, rb1 | rb2
 
 
@@ -75,6 +81,10 @@ def programs(tier):
             # class fields (plain and let), instance observed
             yield 'field', ('ref', 'K'), [('K', ('class', None, [('x', False, VALS[vk]), ('r', False, p)]))]
             yield 'letfield', ('ref', 'K'), [('K', ('class', None, [('x', True, VALS[vk]), ('r', False, p)]))]
+            # a later member reads the field after an inner scope may have shadowed it
+            yield 'field-later', ('ref', 'K'), [('K', ('class', None, [('x', False, VALS[vk]), ('r', False, p), ('s', False, ('py', 'x'))]))]
+            yield 'letfield-later', ('ref', 'K'), [('K', ('class', None, [('x', True, VALS[vk]), ('r', False, p), ('s', False, ('py', 'x')),
+                                                                           (None, 'requires', ('py', 'x == s'))]))]
             yield 'field-star', ('star', ('ref', 'K')), [('K', ('class', None, [('x', False, VALS[vk]), ('r', False, p), (None, True, ('str', ';'))]))]
             # class parameter
             yield 'classparam', ('let', 'z', VALS[vk], ('call', 'C', [('ref', 'z')], [])), [('C', ('class', ['x'], [('r', False, p)]))]
@@ -107,7 +117,7 @@ def well_typed(tag, e):
 
 
 def jobs(tier):
-    inp = 'ab012;:4' if tier == 'quick' else 'ab012;:5'
+    inp = 'ab02;:4' if tier == 'quick' else 'ab012;:5'
     for tag, e, extra in programs(tier):
         rules = [('start', ('rule', None, e))] + TMPL + list(extra)
         mods = [(tuple(rules), (), 'start', None, (), False, 'named', None)]
@@ -128,7 +138,7 @@ def run(tier, seed):
                 'repeated class, class parameter; requires/pass/let members; where, |>, <| over predicate/function menus under *, |, ?; '
                 'x all inputs over {a,b,0,1,2,;} up to length 4/5; non-trivial = the model run needed a restore')
     chk.assumptions = ['reference interpreter with lexical environments',
-                       'inline uses of a name after the end of an inner scope that shadowed it are not generated (property text is silent; DESIGN 2.2)']
+                       'scoping is lexical: after the end of an inner let that shadowed a name, the name denotes the outer binding again']
     chk.explore(e1.run_job, jobs(tier), chunk=8)
     return chk.finish(floor=1000)
 
